@@ -33,6 +33,7 @@ import (
 	"strconv"
 	"strings"
 	"sync"
+	"sync/atomic"
 	"time"
 
 	"github.com/ontio/ontology/common"
@@ -347,15 +348,69 @@ func build(n *node, memo map[*node]types.VmValue) types.VmValue {
 		mp := types.NewMapValue()
 		v := types.VmValueFromMapValue(mp)
 		memo[n] = v
+		// the map is not only filled: like a contract would, the construction also overwrites entries and
+		// removes keys, present and ABSENT ones (before, between and after the present keys) — the final
+		// content is the spec's.  Decisions are a function of the key bytes, so the case is reproducible.
+		present := map[string]bool{}
+		for _, kn := range n.keys {
+			present[keyString(kn)] = true
+		}
+		dummy := types.VmValueFromBool(true)
+		absent := func(b []byte) {
+			if present[string(b)] {
+				return
+			}
+			kv, err := types.VmValueFromBytes(b)
+			if err != nil {
+				return
+			}
+			mapHistoryOps.Add(1)
+			_ = mp.Remove(kv)
+		}
 		for i, k := range n.kids {
+			kb := []byte(keyString(n.keys[i]))
+			h := uint32(2166136261)
+			for _, c := range kb {
+				h = (h ^ uint32(c)) * 16777619
+			}
+			if h&1 == 1 { // a value that is overwritten afterwards
+				if err := mp.Set(build(n.keys[i], memo), dummy); err != nil {
+					panic(err)
+				}
+			}
 			if err := mp.Set(build(n.keys[i], memo), build(k, memo)); err != nil {
 				panic(err)
+			}
+			if h&2 == 2 { // absent key sorting right after / right before this one
+				absent(append(append([]byte{}, kb...), 0))
+				if len(kb) > 0 {
+					absent(kb[:len(kb)-1])
+				}
+			}
+			if h&4 == 4 { // an extra entry that is removed again, then removed once more
+				eb := append(append([]byte{}, kb...), 0xff, byte(h>>8))
+				if !present[string(eb)] {
+					if ek, err := types.VmValueFromBytes(eb); err == nil {
+						if err := mp.Set(ek, dummy); err != nil {
+							panic(err)
+						}
+						mapHistoryOps.Add(2)
+						_ = mp.Remove(ek)
+						_ = mp.Remove(ek)
+					}
+				}
+			}
+			if h&8 == 8 {
+				absent([]byte{})
+				absent([]byte{0xff, 0xff, 0xff, 0xff})
 			}
 		}
 		return v
 	}
 	panic("bad kind")
 }
+
+var mapHistoryOps atomic.Int64
 
 // ---------------------------------------------------------------- own structural comparers
 
@@ -1833,5 +1888,7 @@ func main() {
 	r.Assume("a byte string that decodes to a value deeper than 10 may be refused by Serialize (decoder bound is 1024, serializer bound 10): recorded, not judged")
 	r.Assume("what CircularRefAndDepthDetection itself answers is recorded in evidence, not judged (mechanism, not observable)")
 	os.RemoveAll(scratch)
+	r.Add("map_construction_removals_of_absent_or_extra_keys", mapHistoryOps.Load())
+	r.Require("map_construction_removals_of_absent_or_extra_keys", 200)
 	r.Finish()
 }
